@@ -23,7 +23,7 @@ RULE = (
     "topic, in 40% a part of the messages is delayed with several of them due at the very same instant. Oracle over the recorder's global event order: between two returns of an id "
     "(reject, requeue, its holder's finish) at most one consume() returns it, and never after its ack. workload B: 2-3 workers "
     "with an always-succeeding actor (Redis: one of them may be killed and its messages recovered by maintenance after their "
-    "timeout): every job executed exactly once (twice only if its first holder was killed). non-trivial = at least two consumers "
+    "timeout; or one of them is told to stop while its actors run and finishes them within the graceful period): every job executed exactly once (twice only if its first holder was killed). non-trivial = at least two consumers "
     "received messages (A) / two workers executed jobs (B); distinct = interleaving digest."
 )
 SHRINK_LISTS = ("consumers", "jobs")
@@ -80,7 +80,13 @@ def gen(rng, broker, tier):
     kill = None
     if broker == "redis" and rng.random() < 0.4:
         kill = {"node": "w0", "at_us": rng.randint(1000, 400_000)}
+    stop_one = None
+    if kill is None and rng.random() < 0.35:
+        # one of the workers is told to stop while its actors are running (they finish within the graceful period): what it
+        # holds stays its own until it is done with it
+        stop_one = {"node": f"w{rng.randrange(nw)}", "at_us": rng.randint(1000, 400_000)}
     return {"mode": "workers", "nworkers": nw, "jobs": jobs, "consumers": [], "tasks_limit": rng.choice([1, 2, 5, 1000]),
+            "stop_one": stop_one,
             "bystanders": [rng.randint(20_000, 600_000) for _ in range(rng.choice([0, 1, 3]))] if broker != "mem" else [],
             "kill": kill,
             "knobs": {"step_cost": rng.choice([0, 0, 1, "rand"]), "net": net, "redis_window": rng.choice([10, 10, 2, 3])}}
@@ -349,6 +355,16 @@ async def _main_workers(sim, sc, out):
 
     for i_, at_ in enumerate(sc.get("bystanders", [])):
         sim.loop.spawn("p", bystander(i_, at_))
+    stop_one = sc.get("stop_one")
+    if stop_one:
+        async def stopper():
+            await asyncio.sleep(stop_one["at_us"] / 1e6)
+            running = {s[2] for s in state.starts if s[4] == stop_one["node"]} - {e[2] for e in state.ends}
+            if running:
+                probe(out, "worker-told-to-stop-while-its-actors-run")
+            sim.loop.deliver_signal(stop_one["node"], signal.SIGINT)
+
+        sim.loop.spawn("p", stopper())
     kill = sc.get("kill")
     held_by_dead: set = set()
     if kill:
@@ -380,7 +396,7 @@ async def _main_workers(sim, sc, out):
             probe(out, "maintenance-after-kill")
             deadline = sim.clock.us + 6_000_000
     for n, t in workers:
-        if not (kill and n == kill["node"]):
+        if not (kill and n == kill["node"]) and not t.done():
             sim.loop.deliver_signal(n, signal.SIGINT)
     for n, t in workers:
         if kill and n == kill["node"]:
